@@ -217,3 +217,38 @@ func VH_C14_text_nonascii() {
 		_ = err
 	}
 }
+
+// text inputs whose PLMN positions hold decimal digits that are not ASCII (Arabic-Indic, fullwidth, Devanagari,
+// mathematical bold: 2, 3 and 4 octets each): "is a digit" and "is one octet" are different questions. Exactly 19 or
+// 20 octets long, 1..3 such digits among the first characters, the rest ASCII digits / hex letters (all concrete but the
+// first ASCII digit).
+func VH_C14_text_unicode_digits() {
+	menu := []string{"\u0663", "\uff12", "\u0968", "\U0001d7d0"}
+	target := vrt.Choose("bytes", 19, 20)
+	r := menu[vrt.Choose("rune", 0, len(menu)-1)]
+	k := vrt.Choose("specials", 1, 3)
+	pos := vrt.Choose("pos", 0, 4) // ASCII digits in front of the first special one
+	d0 := vrt.U8("d0")
+	vrt.Assume(d0 <= 9)
+	s := ""
+	for i := 0; i < pos; i++ {
+		if i == 0 {
+			s += string([]byte{'0' + d0})
+		} else {
+			s += "2"
+		}
+	}
+	for i := 0; i < k; i++ {
+		s += r
+	}
+	for len(s) < target {
+		s += "a"
+	}
+	vrt.Assume(len(s) == target)
+	if vrt.Bool("withError") {
+		_, err := GutiToNasWithError(s)
+		_ = err
+	} else {
+		_ = GutiToNas(s)
+	}
+}
